@@ -73,6 +73,44 @@ class Oblig:
         return "%s-%s" % (self.kind, self.sub)
 
 
+def _box_deref(body, s):
+    """`**boxed` in safe code lowers to a deref of the Box's internal raw pointer: every raw-deref'd local of the
+    statement is defined by a Transmute cast of `<local: Box<_>>.0.pointer`"""
+    locs = set()
+
+    def scan(p):
+        cur_raw = False
+        for e in p["p"]:
+            if e["k"] == "deref" and e.get("raw"):
+                cur_raw = True
+        if cur_raw:
+            locs.add(p["l"])
+    scan(s["place"])
+    rv = s["rv"]
+    for key in ("a", "b"):
+        o = rv.get(key)
+        if isinstance(o, dict) and o.get("k") in ("copy", "move"):
+            scan(o["place"])
+    if rv["k"] in ("ref", "rawptr", "discr"):
+        scan(rv["place"])
+    if not locs:
+        return False
+    for l in locs:
+        ds = body.defs_of(l)
+        if len(ds) != 1 or ds[0][1] == "term":
+            return False
+        d = ds[0][2]
+        if d["k"] != "cast" or d["ck"] != "Transmute" or d["a"]["k"] not in ("copy", "move"):
+            return False
+        pl = d["a"]["place"]
+        if not body.local_ty(pl["l"]).startswith("std::boxed::Box<"):
+            return False
+        names = [e.get("name") for e in pl["p"] if e["k"] == "field"]
+        if names != ["0", "pointer"]:
+            return False
+    return True
+
+
 INERT_EXP = re.compile(r"^(derive:|attr:tracing|bang:tracing::|bang:(write|writeln|format|format_args|print|println|eprintln|module_path|file|line|concat|stringify|log)[:$])")
 
 
@@ -131,7 +169,7 @@ def _collect(body, lossy=False, unsafe=True):
             if kind:
                 nm = callee_name(t).split("::")[-1]
                 out.append(Oblig(body, bb, kind, nm, t, line=t["line"], desc=callee_name(t), exp=t.get("expk", "")))
-            if unsafe and t["fn"].get("unsafe") and not inert(t.get("expk", "")):
+            if unsafe and t["fn"].get("unsafe") and not inert(t.get("expk", "")) and not re.match(r"^(core|std)::fmt::", callee_name(t) or ""):
                 out.append(Oblig(body, bb, "UNSAFE", callee_name(t).split("::")[-1], t, line=t["line"], desc=callee_name(t), exp=t.get("expk", "")))
         if lossy or unsafe:
             for si, s in enumerate(blk["stmts"]):
@@ -156,6 +194,8 @@ def _collect(body, lossy=False, unsafe=True):
                             raw = True
                     if rv["k"] in ("ref", "rawptr", "discr") and has_raw(rv["place"]):
                         raw = True
+                    if raw and _box_deref(body, s):
+                        raw = False
                     if raw:
                         out.append(Oblig(body, bb, "UNSAFE", "raw-deref", None, si, s["line"], place_str(s["place"]), False))
     return out
